@@ -98,41 +98,45 @@ func (h *Hook) Run(_ htypes.BindingType, context []bctx.BindingContext, logLabel
 
 	versionedContextList := bctx.ConvertBindingContextList(h.Config.Version, freshBindingContext)
 
+	// remove tmp files on hook exit, also when one of them cannot be created
+	tmpFiles := make([]string, 0, 5)
+	defer func() {
+		if app.DebugKeepTmpFilesVar != "yes" {
+			for _, tmpFile := range tmpFiles {
+				_ = os.Remove(tmpFile)
+			}
+		}
+	}()
+
 	contextPath, err := h.prepareBindingContextJsonFile(versionedContextList)
 	if err != nil {
 		return nil, err
 	}
+	tmpFiles = append(tmpFiles, contextPath)
 
 	metricsPath, err := h.prepareMetricsFile()
 	if err != nil {
 		return nil, err
 	}
+	tmpFiles = append(tmpFiles, metricsPath)
 
 	admissionPath, err := h.prepareAdmissionResponseFile()
 	if err != nil {
 		return nil, err
 	}
+	tmpFiles = append(tmpFiles, admissionPath)
 
 	conversionPath, err := h.prepareConversionResponseFile()
 	if err != nil {
 		return nil, err
 	}
+	tmpFiles = append(tmpFiles, conversionPath)
 
 	kubernetesPatchPath, err := h.prepareObjectPatchFile()
 	if err != nil {
 		return nil, err
 	}
-
-	// remove tmp file on hook exit
-	defer func() {
-		if app.DebugKeepTmpFilesVar != "yes" {
-			_ = os.Remove(contextPath)
-			_ = os.Remove(metricsPath)
-			_ = os.Remove(conversionPath)
-			_ = os.Remove(admissionPath)
-			_ = os.Remove(kubernetesPatchPath)
-		}
-	}()
+	tmpFiles = append(tmpFiles, kubernetesPatchPath)
 
 	envs := make([]string, 0)
 	envs = append(envs, os.Environ()...)
